@@ -20,6 +20,8 @@ def jobs(tier, seed, prop):
     if tier == "quick":     # quick: the [-1,1] family always, one further family chosen by the seed; thorough: all families
         other = ["laguerre", "hermite", "fourier"][seed % 3]
         pairs = [(l, f) for l, f in pairs if f in ("canonical", other) or (l == "lemma_qscale" and f == "jacobi")]
+    if prop == "C05":
+        pairs = []          # C05 uses only the chain-rule scaling loops below (the rate itself is L10b in C10)
     for lem, fam in pairs:
         fexpr = FAMS[fam]
         if lem == "lemma_roundtrip" and fam == "canonical":
